@@ -47,6 +47,10 @@ M = [
  ("C13", "cli-exclude-as-include", "tools/potable/__init__.py", "      cp = FilteredConfigParser(cp, exclude = species)", "      cp = FilteredConfigParser(cp, include = species)"),
  ("C13", "cli-exclude-flag-false", "tools/potable/__init__.py", "    species_list = args.exclude_species\n    exclude_flag = True", "    species_list = args.exclude_species\n    exclude_flag = False"),
  ("C13", "revert-self-attrs", "config/_filtered_config_parser.py", "      self._self_species_list = include\n      self._self_exclude_flag = False", "      self._species_list = include\n      self._self_species_list = include\n      self.__wrapped__._shared = include\n      self._self_exclude_flag = False"),
+ ("C18", "ext-0", "tableforms.py", "InterpolatedUnivariateSpline(x_data, y_data, ext =1)", "InterpolatedUnivariateSpline(x_data, y_data, ext =0)"),
+ ("C18", "no-sort", "_tablereaders.py", "    results.sort()\n", ""),
+ ("C18", "plot-steps-minus-1", "__init__.py", "  step = (highx - lowx) / float(steps)", "  step = (highx - lowx) / float(steps - 1)"),
+ ("C18", "revert-line-strip", "_tablereaders.py", "      line = line.strip()\n      if len(line) == 0", "      line = line[:-1]\n      line = line.strip()\n      if len(line) == 0"),
  ("C03", "setfl-nr-minus-1", "eam_tabulation.py", None, None),
 ]
 def main():
